@@ -19,6 +19,24 @@ func init() {
 
 func c17(c *Ctx) {
 	{
+		jc := "litefs.JournalChecksum"
+		// two equivalent enumerations of the same offsets (no page size is a multiple of 200): SQLite's own descending one, or ascending from len%200 up to and including len-200
+		desc, asc := "phi((builtin.len(p0) - 200)|(↺ - 200))", "phi((builtin.len(p0) % 200)|(↺ + 200))"
+		got := joinS(c.returnsOf(jc))
+		isIdx := func(in ssa.Instruction) bool {
+			ix, ok := in.(*ssa.IndexAddr)
+			return ok && strings.HasPrefix(c.P.Render(ix.X), "p0")
+		}
+		why := "a dropped or shifted sample makes valid records look torn: playback stops early, the file is still truncated and the journal removed - a silent mix of old and new pages"
+		if strings.Contains(got, "% 200") {
+			c.Expect("journal-checksum/samples", got, pat("phi((↺ + p0["+asc+"])|p1)"), "the journal checksum is the nonce plus the bytes at offsets len%200, len%200+200, ... (the offsets of SQLite's pager_cksum, ascending)", why)
+			c.Guarded("journal-checksum/while-positive", jc, isIdx, gs(GP("((builtin.len(p0) - 200) < "+asc+")", false)), 1, "... up to and including offset pageSize-200", "")
+		} else {
+			c.Expect("journal-checksum/samples", got, pat("phi((↺ + p0["+desc+"])|p1)"), "the journal checksum is the nonce plus the bytes at offsets pageSize-200, pageSize-400, ... (SQLite's pager_cksum)", why)
+			c.Guarded("journal-checksum/while-positive", jc, isIdx, gs(GP("(0 < "+desc+")", true)), 1, "... for as long as the offset is positive", "")
+		}
+	}
+	{
 		psField := `encoding/binary\.\(bigEndian\)\.Uint16\(encoding/binary\.BigEndian, .*\[16:\]\)`
 		one := `^\(1 == ` + psField + `\)$`
 		c.noPrematureTest("dbheader/page-size-normalised-before-judged", "litefs.readSQLiteDatabaseHeader", `(`+psField+`|\.PageSize)`, gs(G(one, true), G(one, false)),
